@@ -934,7 +934,7 @@ func c02Fam(v6 bool) string {
 // c02CheckRecord checks the C02 invariants (i)-(vi) of DESIGN section 3 on a record, given
 // the record before the pass and the pod table as it was when the pass started. It returns
 // the first violation ("" if none) and classification facts.
-func c02CheckRecord(prev, cur map[string]*networkv1beta1.NetworkInterface, pods map[string]*c02PodView, everPod map[string]bool, tainted map[string]bool, enableERDMA bool) (string, map[string]bool) {
+func c02CheckRecord(prev, cur map[string]*networkv1beta1.NetworkInterface, pods map[string]*c02PodView, everPod map[string]bool, tainted map[string]bool, dual, enableERDMA bool) (string, map[string]bool) {
 	facts := map[string]bool{}
 	fresh4 := map[string]bool{} // pods whose IPv4 binding was created by this pass, not by take-over
 	old6 := map[string]bool{}   // pods whose IPv6 binding existed before this pass or was re-adopted from the pod's report
@@ -942,8 +942,13 @@ func c02CheckRecord(prev, cur map[string]*networkv1beta1.NetworkInterface, pods 
 	type podB struct{ eni4, a4, eni6, a6 string }
 	byPod := map[string]*podB{}
 	prevPod := map[string]string{} // fam|addr -> pod
-	for _, b := range c02Bindings(prev) {
+	prevHas6 := map[string]bool{}
+	prevB := c02Bindings(prev)
+	for _, b := range prevB {
 		prevPod[c02Fam(b.v6)+"|"+b.addr] = b.pod
+		if b.v6 && b.pod != "" {
+			prevHas6[b.pod] = true
+		}
 	}
 	for _, b := range c02Bindings(cur) {
 		key := c02Fam(b.v6) + "|" + b.addr
@@ -980,6 +985,29 @@ func c02CheckRecord(prev, cur map[string]*networkv1beta1.NetworkInterface, pods 
 			continue
 		}
 		facts["new-binding"] = true
+		// (i) the address must not be taken from a pod that still exists: the record can
+		// name one owner only, the previous one would go on using the address
+		if prevOwner := prevPod[key]; prevOwner != "" && pods[prevOwner] != nil && pods[prevOwner].eligible {
+			// candidate defect: the "no IPv6 found, roll back IPv4" branch also unbinds an IPv4
+			// binding that existed before the pass (the pod has not reported it yet) when the
+			// pod has no IPv6 binding (any more)
+			lostV6 := !prevHas6[prevOwner]
+			for _, pb := range prevB {
+				if pb.v6 && pb.pod == prevOwner {
+					if e := cur[pb.eni]; e == nil || e.IPv6[pb.addr] == nil || e.IPv6[pb.addr].PodID != prevOwner {
+						lostV6 = true
+					}
+				}
+			}
+			known := false
+			if dual && !b.v6 && lostV6 && pods[prevOwner].v4 == "" {
+				facts["class:C02-rollback-unbinds-existing-v4"] = true
+				known = c08Known("C02-rollback-unbinds-existing-v4")
+			}
+			if !known {
+				return fmt.Sprintf("(i) address %s on %s was bound to pod %s, which still exists (sandbox not exited), and is now bound to %s", b.addr, b.eni, prevOwner, b.pod), facts
+			}
+		}
 		pv := pods[b.pod]
 		// (vi) only pods that exist and are served by this controller get bindings
 		if pv == nil || !pv.eligible {
